@@ -300,6 +300,30 @@ func (l *limitedWriter) Write(p []byte) (int, error) {
 
 var reFrame = regexp.MustCompile(`(?m)^github\.com/xinchentechnote/fin-protoc/([^\s(]+(?:\([^)]*\))?[^\s(]*)\(`)
 
+// noFrame drops the function name from a crash class ("fatal|<kind>|<frame>", "panic|<frame>|<class>").
+func noFrame(cls string) string {
+	p := strings.Split(cls, "|")
+	switch {
+	case len(p) >= 3 && p[0] == "fatal" && p[1] != "died":
+		return p[0] + "|" + p[1]
+	case len(p) >= 3 && p[0] == "panic":
+		return p[0] + "|" + strings.Join(p[2:], "|")
+	}
+	return cls
+}
+
+// crashSig identifies a crash by what a user can observe and reproduce - the entry point, the kind of crash and
+// the input - and not by the name of the function it happens in: renaming or splitting a function must not turn
+// a recorded finding into a new alarm, while a crash on any other input, or of another kind on the same input,
+// is still a new violation.
+func crashSig(entry, cls, text string) string {
+	one := strings.Join(strings.Fields(text), " ")
+	if len(one) > 48 {
+		one = one[:48] + "…"
+	}
+	return entry + "|" + noFrame(cls) + "|input " + core.Hash(text)[:10] + " " + one
+}
+
 // crashClass turns the stderr of a dead Go process into "fatal|<kind>|<first repository frame>".
 func crashClass(stderr string) string {
 	kind := "died"
@@ -330,10 +354,19 @@ func crashClass(stderr string) string {
 				count[m[1]]++
 			}
 		}
+		// (the trace shows the 50 innermost and the 50 outermost frames: in a mutual recursion of two or three
+		// functions which of them is counted once more depends on where the stack ran out, so "most often" alone is not
+		// stable) - every function that takes part in the cycle occurs at least half as often as the most frequent
+		// one; the recursion is named after the alphabetically first of them
 		best := 0
+		for _, n := range count {
+			if n > best {
+				best = n
+			}
+		}
 		for f, n := range count {
-			if n > best || (n == best && f < frame) {
-				frame, best = f, n
+			if 2*n >= best && (frame == "?" || f < frame) {
+				frame = f
 			}
 		}
 	} else {
